@@ -303,3 +303,32 @@ def cherry_pick_range_first_commit_must_not_list_later_files():
         return _final(s)
     finally:
         s.destroy()
+
+
+def ci_rebase_merge_of_ai_commit_followed_by_human_commit():
+    """D66: a pull request of two commits (S1 adds three lines to f.txt; a person deletes lines of g.txt) is rebase-merged on the
+    server by plain git onto a base branch that moved on in another file; `git-ai ci local merge` paired the original commits (newest
+    first) with the rebased ones (oldest first): the AI commit's new note was the human commit's empty one => S1's lines 2-4 human."""
+    s = _mk("d66", files=2)
+    try:
+        f0 = [s.line("human") for _ in range(4)]; g0 = [s.line("human") for _ in range(4)]; h0 = [s.line("human") for _ in range(4)]
+        s.human_write("f.txt", f0); s.human_write("g.txt", g0); s.human_write("h.txt", h0); s.commit_all("init")
+        s.ensure_origin()
+        s.g("checkout", "-q", "-b", "pr")
+        s.ai_write("S1", "f.txt", f0[:1] + [s.line("S1"), s.line("S1"), s.line("S1")] + f0[1:]); s.commit_all("pr0: agent lines")
+        s.human_write("g.txt", g0[:1] + g0[3:]); s.commit_all("pr1: a person deletes lines in another file")
+        head = s.head()
+        s.g("checkout", "-q", "main")
+        s.human_write("h.txt", [s.line("human")] + h0); s.commit_all("upstream")
+        base = s.head()
+        s.w.git("push", "-q", "origin", "+refs/heads/*:refs/heads/*", "+refs/notes/ai:refs/notes/ai", plain=True, tick=False)
+        s.w.git("checkout", "-q", "-b", "srv", "pr", plain=True); s.w.git("rebase", "main", plain=True)
+        s.w.git("checkout", "-q", "main", plain=True, tick=False); s.w.git("merge", "-q", "--ff-only", "srv", plain=True, tick=False)
+        m = s.head()
+        s.w.git("push", "-q", "origin", "main", plain=True, tick=False)
+        p = s.w.ga("ci", "local", "merge", "--merge-commit-sha", m, "--base-ref", "main", "--head-ref", "pr", "--head-sha", head, "--base-sha", base)
+        if p.rc != 0:
+            s.violation("C02/ci-rewrite-failed", rc=p.rc, err=p.stderr[-300:])
+        return _final(s)
+    finally:
+        s.destroy()
